@@ -150,6 +150,26 @@ Theorem C05_recursion_through_fresh_method_refuted : forall S D m slots frames,
   fault_raw S D (FRecThrough m slots frames (D + 1)) = RFatal.
 Proof. exact rec_through_fresh_fatal. Qed.
 
+(* mixed recursion: [between] direct levels between two hops through a stack-forking method *)
+Theorem C05_mixed_recursion_is_an_error : forall D m between slots frames depth,
+  1 <= slots -> (guard_limit + 2) * frames <= D ->
+  fault_raw code_sites D (FRecMixed m between slots frames depth) <> RFatal.
+Proof. exact rec_mixed_code_is_guarded. Qed.
+
+Theorem C05_mixed_recursion_fresh_method_refuted : forall S D m between slots frames,
+  mem_str m (s_fresh S) = true -> 1 <= slots -> 1 <= frames -> (between + 1) * slots <= guard_limit ->
+  fault_raw S D (FRecMixed m between slots frames (D + guard_limit + 2)) = RFatal.
+Proof. exact rec_mixed_fresh_fatal. Qed.
+
+(* funcGen.Stack: NewEmptyStackBelow continues the depth count of its parent (base = base+offs+size) *)
+Theorem C05_below_inherits_depth : forall p, stk_depth (stk_below p) = stk_depth p.
+Proof. exact below_inherits_depth. Qed.
+
+Theorem C05_push_guards_depth : forall s len s' len',
+  k_offs s + k_size s = len -> stk_push s len = Some (s', len') ->
+  stk_depth s <= guard_limit /\ stk_depth s' = stk_depth s + 1.
+Proof. exact push_guards_depth. Qed.
+
 (* non-vacuity: a host panic in a forced-parallel map below a try is caught; a program with all context kinds is safe *)
 Example C05_nonvacuous :
   class code_sites 1000 all_par (PTry (PStage 0 (PCall (PLeaf FHostPanic)))) = CCatch /\
@@ -179,5 +199,9 @@ Print Assumptions C05_guard_bounds_depth.
 Print Assumptions C05_guarded_recursion_is_an_error.
 Print Assumptions C05_unguarded_recursion_refuted.
 Print Assumptions C05_recursion_through_method_is_an_error.
+Print Assumptions C05_mixed_recursion_is_an_error.
+Print Assumptions C05_mixed_recursion_fresh_method_refuted.
+Print Assumptions C05_below_inherits_depth.
+Print Assumptions C05_push_guards_depth.
 Print Assumptions C05_recursion_through_guarded_method_partial.
 Print Assumptions C05_recursion_through_fresh_method_refuted.
